@@ -387,7 +387,7 @@ pub struct Altered {
     pub parts: Parts,
 }
 
-pub fn apply_mutation(case: &Case, parts: &Parts, seed: Option<Scalar>, mu: &Mutation) -> Result<Altered, String> {
+pub fn apply_mutation(case: &Case, orig: &Proof, parts: &Parts, seed: Option<Scalar>, mu: &Mutation) -> Result<Altered, String> {
     let mut p = parts.clone();
     let mut promises = case.promises.clone();
     let mut commitments = case.commitments.clone();
@@ -402,7 +402,8 @@ pub fn apply_mutation(case: &Case, parts: &Parts, seed: Option<Scalar>, mu: &Mut
         },
         Alter::Ctx(c) => ctx = c.clone(),
     }
-    let proof = p.to_proof().map_err(|e| format!("decode: {e}"))?;
+    // statement-side alterations keep the original proof object (zero-round proofs cannot be re-decoded)
+    let proof = if matches!(mu.alter, Alter::Proof(_)) { p.to_proof().map_err(|e| format!("decode: {e}"))? } else { orig.clone() };
     let st = RangeStatement::init(prm.clone(), commitments.clone(), promises.clone(), seed).map_err(|e| format!("statement: {e}"))?;
     let rst = ref_statement_of(&prm, commitments.len(), &commitments, &promises);
     Ok(Altered { t: ctx.transcript(), st, proof, rst, parts: p })
